@@ -199,3 +199,83 @@ _register()
 # function as in the C04 check, discharged again here because "padded or unpadded headers" is a clause of this property
 contract('C14', 'from_data_framing', functions=[BK + '.from_data', C4.RU + ':get_raw_params'],
          note="from_data: header size == the input's written header size (padded iff DIRECTIO != 0), same block size / bits / channels / block counts")(C4.from_data_header_size)
+
+
+@contract('C14', 'per_antenna_pipeline_objects_are_independent', functions=[BK + '.__init__'])
+def independent_tables(vc):
+    """Every (antenna, polarisation) has its *own* digitiser, filterbank and requantiser object (copies of the template, never the same object
+    twice): _read_next_block sets each requantiser's target statistics from its own input stream, so a shared object would give one antenna the
+    statistics of another."""
+    nant = 2 + vc.choose(2, 'num_antennas')
+    npol = 1 + vc.choose(2, 'num_pols')
+    sr = Real('sample_rate')
+    vc.assume(sr > 0)
+    src = vc.interp.call(classref(vc, 'setigen.voltage.antenna:MultiAntennaArray'), [], dict(num_antennas=nant, sample_rate=sr, fch1=Real('fch1'), ascending=True, num_pols=npol,
+                                                                                         delays=[0] * nant, t_start=0, seed=Int('seed')))
+    taps, nb = Int('num_taps'), Int('num_branches')
+    nc, M = Int('num_chans'), Int('windows')
+    vc.assume(And(taps >= 1, nb >= 2, nb % 2 == 0, nc >= 1, nc <= nb // 2, M >= 1))
+    dig = vc.interp.call(classref(vc, 'setigen.voltage.quantization:RealQuantizer'), [], dict(target_fwhm=Real('dig_fwhm'), num_bits=8))
+    fb = mkobj(vc, 'setigen.voltage.polyphase_filterbank:PolyphaseFilterbank', num_taps=taps, num_branches=nb, window=symbolic_array('h', (taps * nb,)), window_fn='hamming',
+               cache=None, channelized_stds=None)
+    fb.partial = False
+    rq = vc.interp.call(classref(vc, 'setigen.voltage.quantization:ComplexQuantizer'), [], dict(target_fwhm=Real('rq_fwhm'), num_bits=8))
+    bs = M * taps * nant * nc * 2 * npol
+    out = vc.run(lambda: vc.interp.call(classref(vc, BK), [src, dig, fb, rq], dict(start_chan=0, num_chans=nc, block_size=bs)))
+    vc.cover('reachable')
+    vc.ensure('C14/backend.__init__/exc/none', out.ok)
+    if not out.ok:
+        return
+    F = out.value.fields
+    for name, tmpl in (('digitizer', dig), ('filterbank', fb), ('requantizer', rq)):
+        tab = F[name]
+        objs = [tab[a][p] for a in range(nant) for p in range(npol)]
+        vc.ensure(f'C14/backend.__init__/post/{name}-one-independent-object-per-antenna-and-polarisation',
+                  And(len(tab) == nant, all(len(row) == npol for row in tab), len({id(o) for o in objs}) == len(objs), all(o is not tmpl for o in objs),
+                      len({id(row) for row in tab}) == nant))
+    rqs = [F['requantizer'][a][p] for a in range(nant) for p in range(npol)]
+    parts = [q.fields[k] for q in rqs for k in ('quantizer_r', 'quantizer_i')]
+    vc.ensure('C14/backend.__init__/post/requantiser-components-not-shared', len({id(o) for o in parts}) == len(parts))
+
+
+@contract('C14', 'channelized_noise_estimate_is_per_filterbank', functions=['setigen.voltage.polyphase_filterbank:PolyphaseFilterbank.estimate_channelized_stds'])
+def estimate_per_filterbank(vc):
+    """estimate_channelized_stds: every call draws unit noise, channelises it with *this* filterbank (cache off) and stores the deviations of that
+    result - also when another filterbank of the same geometry (but another window) was estimated earlier in the process."""
+    PFBK = 'setigen.voltage.polyphase_filterbank:PolyphaseFilterbank'
+    taps, nb = (4, 16)
+    seeded = bool(vc.choose(2, 'seeded'))
+    calls = []
+
+    def channelize_contract(interp, clo, args, kwargs):
+        kw = interp.bind_args(clo, args, kwargs)
+        me, x = kw['self'], kw['x']
+        V = symbolic_array(f'V{len(calls)}', (Int(f'rows{len(calls)}'), nb // 2), 'complex')
+        vc.assume(Int(f'rows{len(calls)}') >= 2)
+        calls.append((me, x, kw.get('cache'), V))
+        return V
+    vc.interp.call_specs[PFBK + '.channelize'] = channelize_contract
+    fbs = [mkobj(vc, PFBK, num_taps=taps, num_branches=nb, window=symbolic_array(f'h{q}', (taps * nb,)), window_fn=('hamming', 'boxcar')[q], cache=None, channelized_stds=None)
+           for q in range(2)]
+    for q, fbk in enumerate(fbs):
+        fbk.partial = False
+        n0 = len(calls)
+        kw = dict(seed=Int(f'seed{q}')) if seeded else {}
+        out = vc.call(PFBK + '.estimate_channelized_stds', fbk, **kw)
+        vc.ensure(f'C14/estimate_channelized_stds/call-{q + 1}/exc/none', out.ok)
+        if not out.ok:
+            return
+        made = calls[n0:]
+        ok_call = len(made) == 1 and made[0][0] is fbk and made[0][2] is False and isinstance(made[0][1], SArr) and made[0][1].ndim == 1
+        vc.ensure(f'C14/estimate_channelized_stds/call-{q + 1}/pre@callsite/channelises-fresh-unit-noise-with-this-filterbank-cache-off',
+                  And(ok_call, eq(made[0][1].shape[0], 10000 * nb)) if ok_call else False)
+        if not ok_call:
+            continue
+        V = made[0][3]
+        want_r = L.LIB['numpy.std'](vc.interp, L.np_real(vc.interp, V)) if 'numpy.std' in L.LIB else None
+        want_i = L.LIB['numpy.std'](vc.interp, L.np_imag(vc.interp, V)) if 'numpy.std' in L.LIB else None
+        cs = fbk.fields['channelized_stds']
+        vc.ensure(f'C14/estimate_channelized_stds/call-{q + 1}/post/stores-the-deviations-of-that-result',
+                  And(isinstance(cs, SArr) and cs.ndim == 1, eq(cs.shape[0], 2), eq(cs.at((0,)), want_r), eq(cs.at((1,)), want_i), out.value is cs) if isinstance(cs, SArr) and want_r is not None else False)
+    vc.cover('reachable')
+    vc.ensure('C14/estimate_channelized_stds/post/each-filterbank-holds-its-own-estimate', fbs[0].fields['channelized_stds'] is not fbs[1].fields['channelized_stds'])
